@@ -9,6 +9,7 @@ THEOREMS = ["Vnc.C06_request_geometry", "Vnc.C06_region_request", "Vnc.C06_no_sa
             "Vnc.sys_progress", "Vnc.Sys_seg_indep", "Vnc.Sys_chunkings", "Vnc.Sys_rechunk", "Vnc.sys_feed_rfb", "Vnc.C06_sys_saves_follow_commit",
             "Vnc.C06_sys_save_is_screen", "Vnc.sys_screen_is_painter", "Vnc.C06_capture_over_two_updates", "Vnc.sys_update_app", "Vnc.C06_sys_capture_update", "Vnc.C06_sys_requests_current", "Vnc.C06_sys_geometry_invariant"]
 TRUSTED = [
+    'VncSpec/Requests.lean requestsCurrent (the checker C06_sys_requests_current is about) is evaluated by the driver on every history observed on the real vncdo',
     "Lean 4.33 kernel; standard axioms only",
     "Twisted's Deferred (self.deferred fired by commitUpdate, chaining of the script on it) is abstracted by the waiter / chain model of VncModel/Client.lean; validated by the correspondence run against the real vncdo, not proved",
     "PNG encoding and the file system are Pillow / the OS: the harness decodes the written file and compares pixels",
